@@ -468,11 +468,15 @@ func (c *Ctx) optionCombinator(fn *ssa.Function) (*ssa.Function, *ssa.Function, 
 	if wrap == nil || wrap.Pkg != fn.Pkg || len(wrap.Blocks) == 0 || len(wrapCall.Call.Args) != 1 || len(wrap.Params) != 1 {
 		return nil, nil, nil
 	}
-	mc, ok := wrapCall.Call.Args[0].(*ssa.MakeClosure)
-	if !ok {
+	var setter *ssa.Function
+	switch a := wrapCall.Call.Args[0].(type) {
+	case *ssa.MakeClosure:
+		setter, _ = a.Fn.(*ssa.Function)
+	case *ssa.Function: // a function literal that captures nothing
+		setter = a
+	default:
 		return nil, nil, nil
 	}
-	setter, _ := mc.Fn.(*ssa.Function)
 	// the closure wrap returns
 	var clos *ssa.Function
 	allInstrs(wrap, func(in ssa.Instruction) {
